@@ -59,6 +59,16 @@ func verifRoot() string {
 
 func outDir(prop string) string { return filepath.Join(verifRoot(), "out", prop) }
 
+// casesFor returns the number of cases of a run (VERIF_CASES overrides it, for debugging only).
+func casesFor(p *Prop, tier string) int {
+	if s := os.Getenv("VERIF_CASES"); s != "" {
+		if v, err := strconv.Atoi(s); err == nil && v > 0 {
+			return v
+		}
+	}
+	return p.Cases(tier)
+}
+
 func SeedFromEnv() uint64 {
 	if s := os.Getenv("VERIF_SEED"); s != "" {
 		if v, err := strconv.ParseInt(s, 10, 64); err == nil {
@@ -150,7 +160,7 @@ func WorkerMain(propID, tier string, seed uint64, k, nworkers int, outPath, curP
 			}
 		}
 	}()
-	n := p.Cases(tier)
+	n := casesFor(p, tier)
 	res := workerResult{Counters: map[string]int64{}, Maxes: map[string]float64{}}
 	seenClass := map[string]bool{}
 	for i := k; i < n; i += nworkers {
@@ -257,7 +267,7 @@ func RunMain(propID, tier string) int {
 	os.MkdirAll(filepath.Dir(evPath), 0o755)
 	os.Remove(evPath)
 
-	n := p.Cases(tier)
+	n := casesFor(p, tier)
 	nw := runtime.NumCPU()
 	if s := os.Getenv("VERIF_WORKERS"); s != "" {
 		if v, err := strconv.Atoi(s); err == nil && v > 0 {
